@@ -267,7 +267,7 @@ def run(ctx):
                                "documented-order table ORDER (n!, n!/2, 2^n n!, C(n,k), m^(2n-3), |SL(n,Z/m)|, 2x2x2 cube constants) - trusted input",
                                "naive Python BFS only to exhibit failing rows"]
     ctx.cov["rule"] = "case = (dataset, key[, alias definition]); every row is non-trivial when its orbit has > 1 vertex; distinct by (dataset, key, definition)"
-    ctx.prove(extra=["RefBfsRun"])
+    ctx.prove(extra=["RefBfsRun", "GrowthFormulas", "GrowthFormulasFast"])
     check_t5(ctx)
     rows = load_rows(ctx)
     exact_cap = ctx.budget(25000, 400000)
@@ -374,6 +374,21 @@ def run(ctx):
         else:
             ctx.violation("property_fails", f"{case['dataset']}[{case['key']}] stores {sub[:12]}{'...' if len(sub) > 12 else ''}; the graph {case['definition']} has "
                           f"{sizes[:12]}{'...' if len(sizes) > 12 else ''}{' (complete)' if complete else ''}", dict(case, claim="growth"), True)
+    # the two datasets that datasets.py computes by closed formulas, not by BFS (adjacent transpositions: Mahonian numbers; all transpositions:
+    # Stirling numbers): EVERY row, up to n = 30, is compared with the Gallina formula, which is PROVED to be the growth function of that
+    # graph for every n (C17_coxeter_growth_correct, C17_all_transpositions_growth_correct) - these rows are decided completely
+    fcases, fmetas = [], []
+    for ds, key, row in rows:
+        if ds in FORMULA_DATASETS:
+            fn = "coxeter_growth" if ds.startswith("coxeter") else "all_transpositions_growth_fast"   # the memoised row, proved equal to the recursive model
+            fcases.append(f"({fn} {int(key)}%nat, " + clist(row, lambda v: f"{int(v)}%N") + ")")
+            fmetas.append({"dataset": ds, "key": key, "claim": "closed_formula"})
+    badf = ctx.coq_failing("Base GrowthFormulas GrowthFormulasFast", "", "list N * list N", fcases,
+                           "fun c => (Nat.eqb (List.length (fst c)) (List.length (snd c))) && forallb (fun p => N.eqb (fst p) (snd p)) (combine (fst c) (snd c))", "formulas")
+    ctx.cov["correspondence"]["formula_rows_decided_completely"] = len(fcases)
+    ctx.cov["disagreements_checked"] += len(fcases)
+    for i in badf:
+        ctx.violation("property_fails", f"{fmetas[i]['dataset']}[{fmetas[i]['key']}] differs from the proved growth function of that graph (closed formula)", fmetas[i], True)
     # always-on search: naive BFS on the small rows (independent of Coq)
     n_naive = 0
     for i, (case, fns, start, sub, exact, row) in enumerate(metas):
